@@ -10,7 +10,7 @@ import numpy as np
 
 from .. import attach, gen
 from ..monitors import boundary as MB
-from ..util import rng_for
+from ..util import maxabs, rng_for
 
 TEMPLATES = {"quad": "RegionQuadBoundary", "quad8": "RegionQuadraticQuadBoundary",
              "quad9": "RegionBiQuadraticQuadBoundary", "hexahedron": "RegionHexahedronBoundary",
@@ -69,6 +69,20 @@ def case(fam, geometry, rep):
                 else:
                     run.fail("boundary.surface-selection", "celltype=%s clause=single-cell" % fam, "a single cell does not have all its faces on the surface")
                 run.units[fam + ":renumbered+re-entrant"] += 1
+            # copies and reloads of a boundary region are boundary regions of the same (resp. the new) geometry
+            rb0 = built[(True, False)]
+            MB.check_boundary_region(run, rb0.copy(), mesh, label=fam + "[copy]")
+            run.units[fam + ":copy"] += 1
+            m_upd = mesh.copy()
+            rbu = R(m_upd)
+            A_, t_ = gen.random_affine(rng, dim)
+            rbu.mesh.update(points=rbu.mesh.points @ A_.T + t_, callback=rbu.reload)
+            MB.check_boundary_region(run, rbu, mesh.copy(points=mesh.points @ A_.T + t_), label=fam + "[reload]")
+            run.units[fam + ":reload"] += 1
+            # the geometric gradient of the boundary cells stays the derivative of the position (dXdr drdX = 1)
+            one = np.einsum("IKqc,KJqc->IJqc", rb0.dXdr, rb0.drdX)
+            run.compare("boundary.geometry", "celltype=%s clause=dXdr-times-drdX" % fam, maxabs(one - np.eye(dim).reshape(dim, dim, 1, 1)), 1e-10,
+                        "%s: region.dXdr is not the inverse of region.drdX after the faces were initialised" % fam, unit=fam + ":dXdr")
             # surface selection == faces that occur exactly once among all faces
             allf = built[(False, False)]
             cnt = {}
